@@ -209,7 +209,8 @@ def _unary(fn, x):
         return ('in', [math.atan(x)])
     if fn == 'ACOT':
         a = math.atan2(1.0, x)          # in (0, pi)
-        return ('in', [a] if x >= 0 else [a, a - PI])
+        # negative x: the other branch is atan(1/x) in (-pi/2, 0), computed directly (a - PI cancels for large |x|)
+        return ('in', [a] if x >= 0 else [a, math.atan(1.0 / x)])
     if fn == 'SINH':
         return ('in', [math.sinh(x)])
     if fn == 'COSH':
@@ -336,7 +337,7 @@ def call(fn, names):
 
 # --------------------------------------------------------------------------------------------
 
-LADDER = [5e-324, 1e-320, 1e-300, 1e-200, 1e-100, 1e-30, 1e-17, 1e-9, 1e9, 1e15, 1e17, 1e30, 1e100, 1e154, 1e155, 1e200,
+LADDER = [5e-324, 1e-320, 1e-300, 1e-200, 1e-100, 1e-30, 1e-17, 1e-9, 1e-6, 1e-3, 1e3, 1e6, 1e9, 1e10, 1e15, 1e17, 1e30, 1e100, 1e154, 1e155, 1e200,
           1e300, 1e307, 1e308, 1.7976931348623157e308]
 
 
@@ -366,7 +367,15 @@ class Extremes(Sub):
         if exp[0] != 'skip':
             env.nt()
             env.note('%s:%s' % (fn, exp[0]))
-        return judge(env, out, exp, '%s with xa=%r' % (f, x))
+        f1 = judge(env, out, exp, '%s with xa=%r' % (f, x))
+        if f1 is None and exp[0] == 'in' and out[0] == 'v':
+            # tiny results: the absolute tolerance of the general policy (1e-12) would accept 1e-10 for 1.00000008e-10 and
+            # 0 for 1e-307; here the value is held to 1e-9 RELATIVE
+            v = number_of(env, out)
+            if v is not None and not any(r == v or (r != 0 and abs(v - r) <= 1e-9 * abs(r)) for r in exp[1]):
+                return fail('%s with xa=%r: expected %r, got %r (relative error %.3g)' % (
+                    f, x, exp[1][0], v, abs(v - exp[1][0]) / abs(exp[1][0]) if exp[1][0] else float('inf')), ['v', enc(exp[1][0])], out)
+        return f1
 
 
 class Unary(Sub):
